@@ -108,7 +108,7 @@ theorem binds_eR (ρ : Nat → Text) (s : St) (p2 p1 nx : Option Tok) :
   simp only [binds, isSym_eR, isCallee_eR, isKwT_eR, kwIn_eR]
 theorem uses_eR (ρ : Nat → Text) (p1 nx : Option Tok) (rest : List Tok) :
     uses (p1.map (Tok.expandRaw ρ)) (nx.map (Tok.expandRaw ρ)) (rest.map (Tok.expandRaw ρ)) = uses p1 nx rest := by
-  simp only [uses, isSym_eR, isKwT_eR, dottedCall_eR ρ _ rest (Nat.le_refl _)]
+  simp only [uses, isSym_eR, kwIn_eR, dottedCall_eR ρ _ rest (Nat.le_refl _)]
 theorem carries_eR (ρ : Nat → Text) (s : St) (p1 nx : Option Tok) :
     carries s (p1.map (Tok.expandRaw ρ)) (nx.map (Tok.expandRaw ρ)) = carries s p1 nx := by
   simp only [carries, isSym_eR, isKwT_eR, isNone_eR, isClauseTok_eR]
